@@ -460,6 +460,17 @@ def run(run: Run):
     run.guard('C16.R1', r1_r2_r5, run, rt)
     run.guard('C16.R3', r3, run, src, g, em, rt)
     run.guard('C16.R4', check_plumbing, run, 'C16.R4', src, em, rt, FUNCS)
+    # a function result depends on its arguments only: no runtime helper keeps results or other state between calls
+    from .common import borrow as _borrow
+    from . import c08 as _c08
+    from ..callgraph import get_callgraph as _gcg
+    from ..source import get_source as _gs
+    from ..runtime import get_runtime as _grt
+    run.rule('C16.R6', 'runtime helpers are pure functions of their arguments: no write effects, no value cache (shared with C08.R1/R4)')
+    _src = _gs()
+    _borrow(run, 'C16.R6', _c08.r1, _src, _grt(_src), _gcg(_src))
+    _borrow(run, 'C16.R6', _c08.r4, _src, _grt(_src))
+    run.floor('C16.R6', 50)
     run.floor('C16.R1', 12)
     run.floor('C16.R2', 6)
     run.floor('C16.R3', 3)
